@@ -282,6 +282,21 @@ class Normalizer:
                 return thaw(c[1 + n[2]])
             return patom(("item", c, n[2]))
         if k in ("tuple", "list"):
+            if any(isinstance(x, tuple) and x and x[0] == "star" for x in n[1]):
+                # (a, *b, c) is the concatenation (a,) + b + (c,): the same ordered form the `+` of sequences gets
+                parts = []
+                seg = []
+                for x in n[1]:
+                    if isinstance(x, tuple) and x and x[0] == "star":
+                        if seg:
+                            parts.append(("tuple",) + tuple(self.canon(y) for y in seg))
+                            seg = []
+                        parts.append(self.canon(x[1]))
+                    else:
+                        seg.append(x)
+                if seg:
+                    parts.append(("tuple",) + tuple(self.canon(y) for y in seg))
+                return self.concat(parts)
             return patom(("tuple",) + tuple(self.canon(x) for x in n[1]))
         if k == "set":
             return patom(("set",) + tuple(sorted((self.canon(x) for x in n[1]), key=_key)))
@@ -323,15 +338,49 @@ class Normalizer:
         return patom(("raw", k) + tuple(self.canon(x) if isinstance(x, (tuple, Closure)) else x for x in n[1:]))
 
     # -- arithmetic -----------------------------------------------------------
+    def arith(self, x) -> dict:
+        """Polynomial of an operand of +, -, *, /: a Boolean combination used as a number is its 0/1 indicator, written in the
+        multilinear form over its atoms (so `(a & b) * r`, `a * b * r` and `(a & b).astype(float) * r` coincide)."""
+        p = self.poly(x)
+        if len(p) == 1:
+            (m, c), = p.items()
+            if len(m) == 1 and m[0][1] == 1 and isinstance(m[0][0], tuple) and m[0][0] and m[0][0][0] == "B":
+                return {mm: cc * c for mm, cc in self.boolpoly(m[0][0]).items()}
+        return p
+
+    @staticmethod
+    def _is_seq(t) -> bool:
+        return isinstance(t, tuple) and bool(t) and t[0] in ("tuple", "concat")
+
+    def concat(self, parts) -> dict:
+        """Ordered concatenation of sequences (the `+` of tuples / lists, `(*a, b)`): unlike a sum it does not commute. Adjacent
+        literal segments are fused; a single segment is that segment."""
+        segs: list = []
+        for t in parts:
+            for seg in (t[1:] if isinstance(t, tuple) and t and t[0] == "concat" else (t,)):
+                if segs and isinstance(seg, tuple) and seg and seg[0] == "tuple" and isinstance(segs[-1], tuple) and segs[-1] and segs[-1][0] == "tuple":
+                    segs[-1] = segs[-1] + seg[1:]
+                elif seg == ("tuple",):
+                    continue
+                else:
+                    segs.append(seg)
+        if not segs:
+            return patom(("tuple",))
+        return thaw(segs[0]) if len(segs) == 1 else patom(("concat",) + tuple(segs))
+
     def binop(self, op, a, b) -> dict:
         if op == "Add":
-            return padd(self.poly(a), self.poly(b))
+            pa, pb = self.arith(a), self.arith(b)
+            fa, fb = freeze(pa), freeze(pb)
+            if self._is_seq(fa) or self._is_seq(fb):
+                return self.concat((fa, fb))
+            return padd(pa, pb)
         if op == "Sub":
-            return padd(self.poly(a), pneg(self.poly(b)))
+            return padd(self.arith(a), pneg(self.arith(b)))
         if op == "Mult":
-            return pmul(self.poly(a), self.poly(b))
+            return pmul(self.arith(a), self.arith(b))
         if op == "Div":
-            return pmul(self.poly(a), self.inv(self.poly(b)))
+            return pmul(self.arith(a), self.inv(self.arith(b)))
         if op == "Pow":
             pb = self.poly(b)
             if list(pb.keys()) == [()] and pb[()].denominator == 1 and 0 <= pb[()] <= 6:
@@ -612,6 +661,11 @@ class Normalizer:
                 return pmul(p, p)
             if short == "reciprocal" and len(args) == 1:
                 return self.inv(self.poly(args[0]))
+            if short == "expand_dims" and ((len(args) == 2 and not kw) or (len(args) == 1 and set(kw) == {"axis"})):
+                ax = args[1] if len(args) == 2 else kw["axis"]
+                if ax == ("const", 0):
+                    # expand_dims(x, axis=0) is x[None]
+                    return self._poly(("sub", args[0], ("const", None)))
             if short == "clip" and self.minmax:
                 names = ["x", "min", "max"]
                 b_ = dict(zip(names, args))
@@ -672,6 +726,17 @@ class Normalizer:
             return self.poly(args[0])
         if fname == "equinox.error_if" and len(args) >= 1 and self.erase_error_if:
             return self.poly(args[0])
+        if fname in ("tuple", "list") and len(args) == 1 and not kw:
+            # tuple(tuple(x)) is tuple(x); tuple((a, b)) is (a, b)  [lists and tuples are one canonical sequence kind]
+            inner = self.canon(args[0])
+            if isinstance(inner, tuple) and inner and (inner[0] == "tuple" or (inner[0] == "call" and inner[1] in ("tuple", "list") and len(inner[2]) == 1 and not inner[3])):
+                return patom(inner) if inner[0] == "tuple" else patom(("call", fname, inner[2], ()))
+        if fname == "functools.reduce" and len(args) == 3 and not kw and (args[0], args[2]) == (("global", "operator.mul"), ("const", 1)):
+            # the left fold of a product from 1 is math.prod
+            return self.call(("call", ("global", "math.prod"), (args[1],), ()))
+        if fname == "equinox.filter" and len(args) == 2 and not kw:
+            # filter(tree, spec) is the first half of partition(tree, spec)
+            return self._poly(("item", ("call", ("global", "equinox.partition"), tuple(args), ()), 0))
         if fname == "typing.cast" and len(args) == 2 and not kw:
             return self.poly(args[1])
         if fname == "jax.numpy.finfo" or fname == "numpy.finfo":
@@ -697,7 +762,14 @@ class Normalizer:
     def cast(self, x, dt):
         """Casts to float/bool are erased (value-preserving on the kinds lerax casts);
         a cast to int is kept unless the operand is an integer literal."""
-        if dt in FLOAT_DTYPES or dt in BOOL_DTYPES:
+        if dt in FLOAT_DTYPES:
+            p = self.poly(x)
+            fx = freeze(p)
+            if isinstance(fx, tuple) and fx and fx[0] == "B":
+                # a Boolean combination cast to float is its 0/1 indicator: (~d).astype(float) == 1 - d.astype(float)
+                return self.boolpoly(fx)
+            return p
+        if dt in BOOL_DTYPES:
             return self.poly(x)
         p = self.poly(x)
         if dt in INT_DTYPES:
